@@ -182,61 +182,63 @@ Section ScannerProofs.
   Definition shift (k : Z) (r : sres) : sres :=
     match r with SOk a t s => SOk (k + a) t s | SPanic => SPanic end.
 
-  (* in state st the bytes p are passed over without any effect *)
+  (* in state st the bytes p are passed over without any effect (when the whole remaining
+     input is presented, atEOF = true) *)
   Definition skips (st : St) (p : bytes) : Prop :=
-    forall x e, split st (p ++ x) e = shift (zlen p) (split st x e).
+    forall x, split st (p ++ x) true = shift (zlen p) (split st x true).
 
-  (* [st_tok]: a token decided before EOF is decided identically whatever data follows, except
-     that it may swallow k more bytes that the next call would have skipped anyway.
+  (* [st_tok]: a token decided before EOF is the token decided when the complete remaining
+     input is presented at EOF, whatever that input is - except that the latter may swallow k
+     more bytes, which the next call would have skipped anyway.
      [st_more]: a nil-token return before EOF (need more data / skip) commits to nothing: the
-     answer on extended data is the answer from the state and position it left. *)
+     answer on the complete input is the answer from the state and position it left. *)
   Record stable : Prop := {
     st_wb : wb;
     st_tok : forall st d adv t st', split st d false = SOk adv (Some t) st' ->
-      forall d' e, exists k, 0 <= k /\
-        split st (d ++ d') e = SOk (adv + k) (Some t) st' /\
+      forall d', exists k, 0 <= k /\
+        split st (d ++ d') true = SOk (adv + k) (Some t) st' /\
         skips st' (ztake k (zdrop adv (d ++ d')));
     st_more : forall st d adv st', split st d false = SOk adv None st' ->
-      forall d' e, split st (d ++ d') e = shift adv (split st' (zdrop adv d ++ d') e)
+      forall d', split st (d ++ d') true = shift adv (split st' (zdrop adv d ++ d') true)
   }.
 
   Lemma shift_0 r : shift 0 r = r.
   Proof. destruct r; reflexivity. Qed.
 
   Lemma skips_nil st : skips st [].
-  Proof. intros x e. cbn [app]. rewrite zlen_nil, shift_0. reflexivity. Qed.
+  Proof. intros x. cbn [app]. rewrite zlen_nil, shift_0. reflexivity. Qed.
 
   (* the common case: tokens decided before EOF persist verbatim, and a nil token before EOF
      means "advance 0, state untouched" *)
   Lemma stable_simple : wb ->
     (forall st d adv t st', split st d false = SOk adv (Some t) st' ->
-       forall d' e, split st (d ++ d') e = SOk adv (Some t) st') ->
+       forall d', split st (d ++ d') true = SOk adv (Some t) st') ->
     (forall st d adv st', split st d false = SOk adv None st' -> adv = 0 /\ st' = st) ->
     stable.
   Proof.
     intros W Ht Hm. split; [exact W| |].
-    - intros st d adv t st' Hs d' e. exists 0. split; [lia|]. split.
+    - intros st d adv t st' Hs d'. exists 0. split; [lia|]. split.
       + rewrite Z.add_0_r. apply Ht. exact Hs.
       + replace (ztake 0 (zdrop adv (d ++ d'))) with (@nil Z) by reflexivity. apply skips_nil.
-    - intros st d adv st' Hs d' e. destruct (Hm _ _ _ _ Hs) as [-> ->].
+    - intros st d adv st' Hs d'. destruct (Hm _ _ _ _ Hs) as [-> ->].
       rewrite shift_0. reflexivity.
   Qed.
 
   Lemma skips_drain : wb -> forall st p, skips st p ->
-    forall e y, drainF e st (p ++ y) = drainF e st y.
+    forall y, drainF true st (p ++ y) = drainF true st y.
   Proof.
-    intros W st p Hs e y. rewrite (drainF_wb W e st (p ++ y)), (drainF_wb W e st y).
-    rewrite Hs. destruct (wb_ok W st y e) as (a & tok & st2 & E & Hb & _). rewrite E.
+    intros W st p Hs y. rewrite (drainF_wb W true st (p ++ y)), (drainF_wb W true st y).
+    rewrite Hs. destruct (wb_ok W st y true) as (a & tok & st2 & E & Hb & _). rewrite E.
     cbn [shift]. rewrite zdrop_app_zlen by lia. reflexivity.
   Qed.
 
-  (* what was decided on a prefix of the data stays decided *)
+  (* what was decided on a prefix of the data is what the complete data decides at EOF *)
   Lemma drain_extend : stable -> forall n b, (length b <= n)%nat ->
     forall st ts st' b', drainF false st b = (ts, DMore st' b') ->
-    forall d e, drainF e st (b ++ d) = dapp ts (drainF e st' (b' ++ d)).
+    forall d, drainF true st (b ++ d) = dapp ts (drainF true st' (b' ++ d)).
   Proof.
     intros S. pose proof (st_wb S) as W.
-    induction n as [|n IH]; intros b Hlen st ts st' b' Hd d e.
+    induction n as [|n IH]; intros b Hlen st ts st' b' Hd d.
     - assert (b = []) by (destruct b; [reflexivity|cbn in Hlen; lia]). subst b.
       rewrite (drainF_wb W), (wb_empty W) in Hd. injection Hd as <- <- <-.
       rewrite dapp_nil. reflexivity.
@@ -246,19 +248,19 @@ Section ScannerProofs.
       + assert (Hadv : 0 < adv) by (apply Hp; discriminate).
         destruct (drainF false st1 (zdrop adv b)) as [ts1 r1] eqn:E1.
         cbn [Scanner.tcons fst snd] in Hd. injection Hd as <- ->.
-        destruct (st_tok S _ _ _ _ _ Hs d e) as (k & Hk & Hsk & Hskip).
-        rewrite (drainF_wb W e st (b ++ d)), Hsk.
+        destruct (st_tok S _ _ _ _ _ Hs d) as (k & Hk & Hsk & Hskip).
+        rewrite (drainF_wb W true st (b ++ d)), Hsk.
         rewrite zdrop_zdrop by lia.
-        pose proof (skips_drain W _ _ Hskip e (zdrop k (zdrop adv (b ++ d)))) as Hsd.
+        pose proof (skips_drain W _ _ Hskip (zdrop k (zdrop adv (b ++ d)))) as Hsd.
         rewrite ztake_zdrop in Hsd. rewrite <- Hsd.
         rewrite zdrop_app_le by lia.
         assert (length (zdrop adv b) < length b)%nat by (apply length_zdrop_lt; lia).
-        rewrite (IH (zdrop adv b) ltac:(lia) st1 ts1 st' b' E1 d e).
+        rewrite (IH (zdrop adv b) ltac:(lia) st1 ts1 st' b' E1 d).
         reflexivity.
       + injection Hd as <- <- <-. rewrite dapp_nil.
-        rewrite (drainF_wb W e st (b ++ d)), (drainF_wb W e st1 (zdrop adv b ++ d)).
-        rewrite (st_more S _ _ _ _ Hs d e).
-        destruct (wb_ok W st1 (zdrop adv b ++ d) e) as (a2 & tok2 & st2 & E2 & Hb2 & _). rewrite E2.
+        rewrite (drainF_wb W true st (b ++ d)), (drainF_wb W true st1 (zdrop adv b ++ d)).
+        rewrite (st_more S _ _ _ _ Hs d).
+        destruct (wb_ok W st1 (zdrop adv b ++ d) true) as (a2 & tok2 & st2 & E2 & Hb2 & _). rewrite E2.
         cbn [shift]. rewrite zdrop_zdrop by lia. rewrite zdrop_app_le by lia. reflexivity.
   Qed.
 
@@ -267,7 +269,7 @@ Section ScannerProofs.
     forall d, finish o st (b ++ d) = tapp ts (finish o st' (b' ++ d)).
   Proof.
     intros S o st b ts st' b' Hd d. unfold Scanner.finish.
-    rewrite (drain_extend S (length b) b (le_n _) st ts st' b' Hd d true).
+    rewrite (drain_extend S (length b) b (le_n _) st ts st' b' Hd d).
     unfold dapp, Scanner.tapp. cbn [fst snd]. reflexivity.
   Qed.
 
@@ -404,3 +406,59 @@ Section ScannerProofs.
   Qed.
 
 End ScannerProofs.
+
+(* ---------- observing tokens through a function ---------- *)
+
+Section ScanMap.
+  Variables St Tok1 Tok2 : Type.
+  Variable g : Tok1 -> Tok2.
+  Variable split1 : splitfn St Tok1.
+  Variable split2 : splitfn St Tok2.
+
+  Definition map_sres (r : sres St Tok1) : sres St Tok2 :=
+    match r with SOk a t s => SOk a (option_map g t) s | SPanic => SPanic end.
+
+  Hypothesis split_map : forall st d e, split2 st d e = map_sres (split1 st d e).
+
+  Definition map_dr (p : list Tok1 * dstop St) : list Tok2 * dstop St := (map g (fst p), snd p).
+  Definition map_r (p : list Tok1 * stop) : list Tok2 * stop := (map g (fst p), snd p).
+
+  Lemma drain_map : forall fuel e st buf,
+    drain St Tok2 split2 fuel e st buf = map_dr (drain St Tok1 split1 fuel e st buf).
+  Proof.
+    induction fuel as [|f IH]; intros e st buf; [reflexivity|].
+    cbn [drain]. destruct (negb e && nilb buf); [reflexivity|].
+    rewrite split_map. destruct (split1 st buf e) as [adv tok st'|]; [|reflexivity].
+    cbn [map_sres]. destruct (adv <? 0); [reflexivity|]. destruct (zlen buf <? adv); [reflexivity|].
+    destruct tok as [t|]; [|reflexivity]. cbn [option_map].
+    destruct (adv =? 0); [reflexivity|]. rewrite IH.
+    unfold map_dr, tcons. cbn [fst snd map]. reflexivity.
+  Qed.
+
+  Lemma finish_map o st buf :
+    finish St Tok2 split2 o st buf = map_r (finish St Tok1 split1 o st buf).
+  Proof.
+    unfold finish, drainF. rewrite drain_map. unfold map_r, map_dr. cbn [fst snd]. reflexivity.
+  Qed.
+
+  Lemma scan_from_map last_eof : forall chunks st buf e,
+    scan_from St Tok2 split2 last_eof st buf e chunks
+    = map_r (scan_from St Tok1 split1 last_eof st buf e chunks).
+  Proof.
+    induction chunks as [|c cs IH]; intros st buf e; cbn [scan_from].
+    - apply finish_map.
+    - destruct (nilb c).
+      + destruct (last_eof && nilb cs); [apply finish_map|].
+        destruct (Nat.leb max_empty_reads e); [apply finish_map|]. apply IH.
+      + destruct (last_eof && nilb cs); [apply finish_map|].
+        unfold drainF. rewrite drain_map.
+        destruct (drain St Tok1 split1 (S (length (buf ++ c))) false st (buf ++ c)) as [ts r].
+        unfold map_dr. cbn [fst snd]. destruct r as [st' buf'|s].
+        * rewrite IH. unfold map_r, tapp. cbn [fst snd]. rewrite map_app. reflexivity.
+        * reflexivity.
+  Qed.
+
+  Lemma scan_map last_eof st0 chunks :
+    scan St Tok2 split2 last_eof st0 chunks = map_r (scan St Tok1 split1 last_eof st0 chunks).
+  Proof. apply scan_from_map. Qed.
+End ScanMap.
